@@ -613,3 +613,13 @@ package task
 //@   on call (*mesos.Resources).Add : reqCell = arg0 ; reqDone = true
 //@   on call (*mesos.Resources).Subtract : allSub = allSub || (reqDone && arg1 == deref(reqCell))
 //@   ensures t != nil ==> allSub
+
+// ---------------------------------------------------------------------------------------------------------
+// C13 (an outbound channel connects to where the matching inbound channel was bound): what the scheduler allocates for a
+// task's inbound channels follows the same precedence as what the task is configured with - the role-level declaration
+// of a channel outranks the task class's declaration of the same name.
+//@ func (m *Manager) GetWantsForDescriptor(descriptor *Descriptor, envId uid.ID) (r *Wants, err error)
+//@   property C13
+//@   ghostvar cls *taskclass.Class = nil
+//@   on aftercall .GetClass : cls = result0
+//@   on call channel.MergeInbound : assert cls != nil && arg0 == descriptor.RoleBind && arg1 == cls.Bind
